@@ -54,11 +54,13 @@ def gen_cases(tier, seed):
                                 "pre": i % 2 == 1, "comp": i % 3 != 0, "mut": m, "bit": rng.randrange(0, 2048), "d2": hex(rng.randrange(1, N))}
     for i in range(6 if tier == "quick" else 80):
         yield "sigverify_keys", {"d": hex(rng.randrange(1, N)), "k": hex(rng.randrange(1, N)), "msg": rand_bytes(rng, 32).hex(), "flag": 1, "bit": rng.randrange(1 << 30)}
+    for i in range(3 if tier == "quick" else 30):
+        yield "arg_forms", {"d": hex(rng.randrange(1, N)), "k": hex(rng.randrange(1, N)), "msg": rand_bytes(rng, 40).hex()}
     # direct ecmath.verify with digests >= n and boundary values
     for i in range(60 if tier == "quick" else 800):
         d = rng.randrange(1, N)
         z = [0, 1, N - 1, N, N + 1, (1 << 256) - 1, rng.getrandbits(256)][i % 7]
-        yield "ecverify", {"d": hex(d), "k": hex(rng.randrange(1, N)), "z": hex(z), "mut": ["none", "high_s", "flip_r", "flip_s", "flip_z", "offcurve_pt", "infinity"][i % 7 if i % 11 else 0],
+        yield "ecverify", {"d": hex(d), "k": hex(rng.randrange(1, N)), "z": hex(z), "mut": ["none", "high_s", "flip_r", "flip_s", "flip_z", "offcurve_pt", "infinity", "offcurve_crafted"][i % 8 if i % 11 else 0],
                            "bit": rng.randrange(256)}
     # ensure_sig_low_s
     for nb in range(1, 33):
@@ -83,7 +85,7 @@ def gen_cases(tier, seed):
 
 def required(tier):
     return {"sigverify.decided": 1500, "sigverify.expected_accept": 150, "sigverify.expected_reject": 1000,
-            "mut.infinity": 20, "keys.class.offcurve_pseudo_root": 10, "keys.class.coord_plus_p": 100, "keys.class.valid": 10, "sigverify.via_cli": 80, "mut.high_s": 50, "mut.pub_65_with_02": 50, "ecverify.decided": 50,
+            "mut.infinity": 20, "keys.class.offcurve_pseudo_root": 10, "keys.class.coord_plus_p": 100, "keys.class.valid": 10, "sigverify.via_cli": 80, "mut.high_s": 50, "mut.pub_65_with_02": 50, "ecverify.decided": 50, "ecverify.offcurve_crafted": 5,
             "lows.decided": 60, "lows.class.short_complement": 20, "small.decided": 100000,
             "small.expected_accept": 100, "small.class.x_ge_n": 10, "small.class.R_infinity": 100}
 
@@ -103,6 +105,18 @@ def _flip(v, bit, width=256):
 def run_case(kind, params, ctx):
     import bits.utils as bu
     import bits.ecmath as em
+    if kind == "arg_forms":
+        from .common import arg_forms
+        d, k = int(params["d"], 16), int(params["k"], 16)
+        msg = bytes.fromhex(params["msg"])
+        zz = int.from_bytes(h256(msg + (1).to_bytes(4, "little")), "big")
+        r, s = recdsa.sign_with_k(d, zz % N, k)
+        sig = rder.encode(r, min(s, N - s)) + b"\x01"
+        for comp in (True, False):
+            arg_forms(ctx, "sig_verify", bu.sig_verify, [sig, secp.sec1_encode(secp.pub(d), comp), msg], prop_exc=(ContractViolation,))
+        arg_forms(ctx, "der_decode_sig", bu.der_decode_sig, [sig[:-1]], prop_exc=(ContractViolation,))
+        ctx.nontrivial()
+        return
     if kind == "sigverify":
         d = int(params["d"], 16)
         k = int(params["k"], 16)
@@ -331,7 +345,29 @@ def _ecverify(ctx, d, k, z, mut, bit, k_for_inf):
             z = _flip(z, bit)
         elif mut == "offcurve_pt":
             pt = (pt[0], (pt[1] + 1 + bit) % P)
-    expected = recdsa.verify(pt, z, r, s)
+        elif mut == "offcurve_crafted":
+            # an ADVERSARIAL off-curve "public key" (no private key involved): with s = r we get u2 = 1, u1 = z/r, A = u1*G;
+            # choose P = (x2, y2) so that the CHORD through A and P has slope lam with lam^2 - x1 - x2 = r.  A verifier
+            # that adds without insisting on curve points arrives at x(R) = r.
+            rr = rng_for("offc", d, bit)
+            r = rr.randrange(1, N)
+            s = r
+            zz = z % N or 1
+            z = zz if z < N else zz + N if zz + N < (1 << 256) else zz
+            A = secp.SECP.mul(zz * pow(r, -1, N) % N, secp.pub(1))
+            x2 = rr.randrange(1, P)
+            while True:
+                lam2 = (r + A[0] + x2) % P
+                lam = pow(lam2, (P + 1) // 4, P)
+                if lam * lam % P == lam2 and x2 != A[0]:
+                    break
+                x2 = (x2 + 1) % P
+            y2 = (A[1] + lam * (x2 - A[0])) % P
+            pt = (x2, y2)
+            if secp.SECP.on_curve(pt):
+                return      # 2^-256
+            ctx.count("ecverify.offcurve_crafted")
+    expected = recdsa.verify(pt, z, r, s) if secp.SECP.on_curve(pt) else False
     try:
         out = em.verify(r, s, pt, z)
         lib_ok = out is True
